@@ -1097,3 +1097,229 @@ Proof.
 Qed.
 
 End Simulation.
+
+(* ---- statements about single operations and reachable states -------------------------- *)
+Section Statements.
+Context (sv : string -> N -> N -> N -> bool).
+Context (keys : N -> option N).
+Notation stepT := (step sv keys true).
+
+Definition live (st : state) (sid : N) : Prop := In sid (map ss_sid (sessions st)).
+
+Lemma delete_sids : forall st c sid k id,
+  map ss_sid (sessions (fst (delete st c sid k id))) = map ss_sid (sessions st) /\
+  next_sid (fst (delete st c sid k id)) = next_sid st.
+Proof.
+  intros st c sid k id. unfold delete.
+  destruct (find_entry id (clients st)) as [e|]; [|split; reflexivity].
+  destruct (kind_eqb (e_kind e) k); [|split; reflexivity].
+  destruct (find_sess sid (sessions st)) as [s|]; [|split; reflexivity].
+  destruct (owns s k id); [|split; reflexivity].
+  simpl. split; [|reflexivity]. rewrite sids_upd_sess; [reflexivity | intros; apply ss_sid_forget].
+Qed.
+
+(* sessions come into being by an accepted hello only (any value of recheck) *)
+Lemma step_sids : forall rc st o x,
+  In x (map ss_sid (sessions (fst (step sv keys rc st o)))) ->
+  In x (map ss_sid (sessions st)) \/
+  (exists c now t, o = OHello c now t /\ check_token sv keys now t = None /\ x = next_sid st + 1).
+Proof.
+  intros rc st o x H.
+  destruct o as [c now t | c sid | c | c k | c id p | c | c | c bd | c | sid | | tok r];
+    cbn [step] in H; unfold on_conn in H;
+    try (destruct (cs_closed (conns st c) || cs_busy (conns st c)); [left; exact H|]);
+    try (destruct (cs_sess (conns st c)) as [sid0|]; simpl in H; try (left; exact H)).
+  - destruct (check_token sv keys now t) eqn:Et; simpl in H; [left; exact H|].
+    rewrite map_app in H. apply in_app_iff in H. destruct H as [H|[H|[]]]; [left; exact H|].
+    right. exists c, now, t. auto.
+  - destruct (find_sess sid (sessions st)); simpl in H; [|left; exact H].
+    rewrite sids_upd_sess in H; [left; exact H | reflexivity].
+  - left. destruct k; cbn [command] in H; try exact H.
+    + rewrite (proj1 (delete_sids st c sid0 Pub id)) in H. exact H.
+    + rewrite (proj1 (delete_sids st c sid0 Sub id)) in H. exact H.
+    + destruct (find_entry id (clients st)) as [e|]; [destruct (kind_eqb (e_kind e) Pub)|]; exact H.
+  - left. unfold payload in H. destruct (find_entry id (clients st)); [destruct p|]; exact H.
+  - left. unfold close_session in H. destruct (find_sess sid0 (sessions st)); simpl in H; [|exact H].
+    apply sids_del_sess_incl in H. exact H.
+  - left. destruct (cs_closed (conns st c)); exact H.
+  - left. destruct (cs_closed (conns st c)); exact H.
+  - left. unfold close_session in H. destruct (find_sess sid (sessions st)); simpl in H; [|exact H].
+    apply sids_del_sess_incl in H. exact H.
+  - left. simpl in H. rewrite map_map in H. exact H.
+  - left. unfold mcu_done in H.
+    destruct (find (fun p => p_tok p =? tok) (pendings st)) as [p|]; simpl in H; [|exact H].
+    destruct r; simpl in H; try exact H.
+    destruct (find_sess (p_sid p) (sessions st)); simpl in H.
+    + rewrite sids_upd_sess in H; [exact H | intros; apply ss_sid_remember].
+    + destruct rc; exact H.
+Qed.
+
+Lemma hello_sound : forall rc st o x,
+  live (fst (step sv keys rc st o)) x -> ~ live st x ->
+  exists c now t, o = OHello c now t /\
+    t_wf t = true /\ In (t_alg t) ["RS256"; "RS384"; "RS512"]%string /\ t_sigdec t = true /\
+    exists k, keys (t_iss t) = Some k /\ sv (t_alg t) k (t_text t) (t_sig t) = true /\
+    exists i, t_iat t = Some i /\
+      (now - (5 * 60 * 1000000000 + 60 * 1000000000) <= i <= now + 60 * 1000000000)%Z /\
+      (forall e, t_exp t = Some e -> now < e + 60 * 1000000000)%Z /\
+      (forall n, t_nbf t = Some n -> n - 60 * 1000000000 <= now)%Z.
+Proof.
+  intros rc st o x H Hn. apply step_sids in H. destruct H as [H|[c [now [t [Ho [Hc _]]]]]]; [contradiction|].
+  exists c, now, t. split; [assumption|]. apply check_token_sound in Hc. exact Hc.
+Qed.
+
+(* a message other than hello on a connection that has not been welcomed *)
+Definition refused (st : state) (c : N) (r : state * outcome) : Prop :=
+  fst r = st /\
+  (snd r = {| applied := false; msgs := [] |} \/
+   snd r = {| applied := true; msgs := [(c, MErr EHelloExpected)] |} \/
+   snd r = {| applied := true; msgs := [(c, MErr EInvalidFormat)] |}).
+
+Lemma prehello_refused : forall rc st o c,
+  client_msg_conn o = Some c -> cs_sess (conns st c) = None ->
+  refused st c (step sv keys rc st o) /\
+  (cs_closed (conns st c) = false -> cs_busy (conns st c) = false ->
+   match o with OMalformed _ _ => False | _ => True end ->
+   snd (step sv keys rc st o) = {| applied := true; msgs := [(c, MErr EHelloExpected)] |}).
+Proof.
+  intros rc st o c Hc Hs.
+  destruct o as [| | |c0 k|c0 id p|c0|c0|c0 bd| | | |]; simpl in Hc; try discriminate; inversion Hc; subst c0;
+    cbn [step]; unfold on_conn; rewrite ?Hs;
+    destruct (cs_closed (conns st c)) eqn:Ecl; simpl;
+    try (split; [split; [reflexivity | left; reflexivity] | intros; discriminate]);
+    destruct (cs_busy (conns st c)) eqn:Ebu; simpl;
+    try (split; [split; [reflexivity | left; reflexivity] | intros; discriminate]);
+    unfold send; rewrite Ecl; simpl.
+  all: try (split; [split; [reflexivity | right; left; reflexivity] | intros; reflexivity]).
+  split; [split; [reflexivity | right; right; reflexivity] | intros _ _ []].
+Qed.
+
+(* every registered or open object belongs to a live session, in every reachable state *)
+Lemma cleanup_all : forall ops e,
+  In e (clients (run sv keys ops) ++ mopen (run sv keys ops)) -> live (run sv keys ops) (e_owner e).
+Proof.
+  intros ops e He. pose proof (Inv_run sv keys ops) as HI. destruct HI.
+  apply in_app_iff in He.
+  assert (Ho : owns_entry (sessions (run sv keys ops)) e) by (destruct He; auto).
+  destruct Ho as [s [Hs [Hsid _]]]. unfold live. apply in_map_iff. exists s. tauto.
+Qed.
+
+(* ... and it is in that session's own table *)
+Lemma cleanup_owned : forall ops e,
+  In e (clients (run sv keys ops) ++ mopen (run sv keys ops)) ->
+  exists s, In s (sessions (run sv keys ops)) /\ ss_sid s = e_owner e /\ owns s (e_kind e) (e_id e) = true.
+Proof.
+  intros ops e He. pose proof (Inv_run sv keys ops) as HI. destruct HI.
+  apply in_app_iff in He. destruct He as [He|He]; [apply inv_own_c0 in He | apply inv_own_m0 in He]; exact He.
+Qed.
+
+(* bye and expiry remove the session; nothing of it stays behind *)
+Lemma close_session_gone : forall st sid r, ~ live (fst (close_session st sid r)) sid.
+Proof.
+  intros st sid r. unfold live, close_session.
+  destruct (find_sess sid (sessions st)) eqn:E; simpl; [apply del_sess_gone | apply find_sess_none; assumption].
+Qed.
+
+Lemma bye_ends : forall rc st c sid,
+  cs_closed (conns st c) = false -> cs_busy (conns st c) = false -> cs_sess (conns st c) = Some sid ->
+  ~ live (fst (step sv keys rc st (OBye c))) sid.
+Proof.
+  intros rc st c sid H1 H2 H3. cbn [step]. unfold on_conn. rewrite H1, H2, H3. simpl.
+  pose proof (close_session_gone st sid RClosed) as H.
+  destruct (close_session st sid RClosed). exact H.
+Qed.
+
+Lemma expire_ends : forall rc st sid, ~ live (fst (step sv keys rc st (OExpire sid))) sid.
+Proof.
+  intros rc st sid. cbn [step].
+  pose proof (close_session_gone st sid RExpired) as H.
+  destruct (close_session st sid RExpired). exact H.
+Qed.
+
+Lemma mcu_lost_clears : forall ops,
+  let st := fst (stepT (run sv keys ops) OMcuLost) in clients st = [] /\ mopen st = [].
+Proof.
+  intros ops. pose proof (Inv_run sv keys ops) as HI. destruct HI. simpl.
+  split; apply drop_all_nil; assumption.
+Qed.
+
+(* a session that has ended never comes back *)
+Lemma close_next_sid : forall st sid r, next_sid (fst (close_session st sid r)) = next_sid st.
+Proof. intros. unfold close_session. destruct (find_sess sid (sessions st)); reflexivity. Qed.
+
+Lemma next_sid_mono : forall rc st o, next_sid st <= next_sid (fst (step sv keys rc st o)).
+Proof.
+  intros rc st o.
+  destruct o as [c now t | c sid | c | c k | c id p | c | c | c bd | c | sid | | tok r];
+    cbn [step]; unfold on_conn, payload, mcu_done;
+    try (destruct k; cbn [command]; unfold create; try rewrite (proj2 (delete_sids _ _ _ _ _)));
+    repeat match goal with
+    | |- context [let '(_, _) := close_session ?st ?sid ?r in _] =>
+        let H := fresh "H" in pose proof (close_next_sid st sid r) as H; destruct (close_session st sid r); cbn [fst] in H
+    | |- context [match ?x with _ => _ end] => destruct x; cbn [fst snd next_sid done skip]
+    end; cbn [fst snd next_sid done skip]; try rewrite (proj2 (delete_sids _ _ _ _ _)); lia.
+Qed.
+
+Lemma ended_is_final : forall rc more st sid,
+  sid <= next_sid st -> ~ live st sid ->
+  ~ live (fold_left (fun s o => fst (step sv keys rc s o)) more st) sid.
+Proof.
+  intros rc more. induction more as [|o r IH]; intros st sid Hle Hn; simpl; [assumption|].
+  apply IH.
+  - pose proof (next_sid_mono rc st o). lia.
+  - intro H. apply step_sids in H. destruct H as [H|[c [now [t [_ [_ Hx]]]]]]; [contradiction | lia].
+Qed.
+
+(* delete works only for the session that owns the object *)
+Lemma delete_owner_only : forall ops c k id e,
+  let st := run sv keys ops in
+  In e (clients st) -> e_id e = id -> cs_sess (conns st c) <> Some (e_owner e) ->
+  let r := stepT st (OCmd c (match k with Pub => CDeletePub id | Sub => CDeleteSub id end)) in
+  fst r = st /\ forall x, In x (msgs (snd r)) -> exists er, x = (c, MErr er).
+Proof.
+  intros ops c k id e st He Hid Hne r. pose proof (Inv_run sv keys ops) as HI. fold st in HI.
+  assert (Hsend : forall er x, In x (send st c (MErr er)) -> exists er', x = (c, MErr er')).
+  { intros er x Hx. unfold send in Hx. destruct (cs_closed (conns st c)); [contradiction|].
+    destruct Hx as [Hx|[]]. exists er. auto. }
+  assert (Hdel : forall sid, cs_sess (conns st c) = Some sid ->
+            fst (delete st c sid k id) = st /\ forall x, In x (msgs (snd (delete st c sid k id))) -> exists er, x = (c, MErr er)).
+  { intros sid Hs. unfold delete.
+    destruct (find_entry id (clients st)) as [e'|] eqn:Ef; simpl; [|split; [reflexivity | apply Hsend]].
+    destruct (kind_eqb (e_kind e') k) eqn:Ek; simpl; [|split; [reflexivity | apply Hsend]].
+    destruct (find_sess sid (sessions st)) as [s|] eqn:Efs; simpl; [|split; [reflexivity | apply Hsend]].
+    destruct (owns s k id) eqn:Eo; simpl; [|split; [reflexivity | apply Hsend]].
+    exfalso. apply Hne. rewrite Hs. f_equal.
+    apply find_sess_some in Efs. destruct Efs as [Hin Hsid]. destruct HI.
+    assert (Heq : (id, k, ss_sid s) = e).
+    { apply (NoDup_map_inj e_id (clients st)); auto. }
+    subst e. simpl. symmetry. exact Hsid. }
+  unfold r. destruct k; cbn [step]; unfold on_conn;
+    (destruct (cs_closed (conns st c) || cs_busy (conns st c)); [simpl; split; [reflexivity | intros x []]|]);
+    (destruct (cs_sess (conns st c)) as [sid|] eqn:Es; [cbn [command]; apply Hdel; reflexivity | simpl; split; [reflexivity | apply Hsend]]).
+Qed.
+
+End Statements.
+
+(* ---- the code as found: a creation that completes after its session was closed --------- *)
+Definition witness_tok : token :=
+  {| t_wf := true; t_alg := "RS256"; t_sigdec := true; t_iss := 0; t_iat := Some 1000%Z;
+     t_exp := None; t_nbf := None; t_text := 0; t_sig := 0 |}.
+Definition witness_ops : list op :=
+  [OHello 0 1000%Z witness_tok; OCmd 0 CCreatePub; OResume 1 1; OBye 1; OMcuDone 0 MOk].
+Definition sv_all : string -> N -> N -> N -> bool := fun _ _ _ _ => true.
+Definition keys_all : N -> option N := fun _ => Some 0.
+
+Definition run_gen (rc : bool) (ops : list op) : state :=
+  fold_left (fun st o => fst (step sv_all keys_all rc st o)) ops init.
+
+Lemma create_after_close_refuted :
+  P_C18 sv_all keys_all (trace_of sv_all keys_all false witness_ops) = false /\
+  sessions (run_gen false witness_ops) = [] /\
+  clients (run_gen false witness_ops) = [(0, Pub, 1)] /\
+  mopen (run_gen false witness_ops) = [(0, Pub, 1)].
+Proof. vm_compute. auto. Qed.
+
+Lemma create_after_close_repaired :
+  P_C18 sv_all keys_all (trace_of sv_all keys_all true witness_ops) = true /\
+  clients (run_gen true witness_ops) = [] /\ mopen (run_gen true witness_ops) = [].
+Proof. vm_compute. auto. Qed.
